@@ -334,6 +334,11 @@ struct Ctl {
     vt: HashMap<(String, String), i64>,       // virtual time of every stored report (address, reporter)
     down: HashSet<usize>,                     // proxies that do not answer PING
     choices: Vec<(usize, Vec<String>)>,       // replace_proxy boundary -> replacement chosen at each arrival
+    // faults addressed by "the k-th commit_migration call of the case" (M<k>), resolved to boundaries when reached
+    commit_faults: HashMap<usize, Fault>,
+    commit_boundaries: Vec<usize>,
+    held_commit_meta: HashMap<usize, (usize, usize)>, // boundary of a held commit -> (src, dst) of its migration
+    commit_mismatch: Vec<String>,             // accepted commits that removed something else than their own (ranges, epoch)
 }
 
 const FAIL_TTL: i64 = 30;
@@ -369,6 +374,24 @@ impl World {
         }
         c.keys.push(key.to_string());
         c.keys.len()
+    }
+
+    fn pending_keys(&self) -> Vec<String> {
+        let st = self.store.lock();
+        let mut v = vec![];
+        for (name, c) in st.clusters.iter() {
+            for chunk in c.chunks.iter() {
+                for part in chunk.migrating_slots.iter() {
+                    for m in part.iter() {
+                        if m.is_migrating {
+                            v.push(format!("{}|{}|{}", name, m.range_list.to_strings().join(" "), m.meta.epoch));
+                        }
+                    }
+                }
+            }
+        }
+        v.sort();
+        v
     }
 
     // keys of the migrations the store holds (is_migrating entries), sorted by id
@@ -655,7 +678,22 @@ impl World {
 
     async fn arrive_commit(&self, task: MigrationTaskMeta) -> Result<(), MetaStoreError> {
         let id = self.key_id(&key_of(&task));
+        let own = key_of(&task);
+        let before = self.pending_keys();
         let r = { self.store.lock().commit_migration(task, false) };
+        let after = self.pending_keys();
+        // monitor: the broker accepts a commit only for the (ranges, epoch) that is pending, and removes exactly that entry
+        let removed: Vec<String> = before.iter().filter(|k| !after.contains(k)).cloned().collect();
+        let added: Vec<String> = after.iter().filter(|k| !before.contains(k)).cloned().collect();
+        let fine = if r.is_ok() { removed == vec![own.clone()] && added.is_empty() } else { removed.is_empty() && added.is_empty() };
+        if !fine {
+            self.ctl.lock().commit_mismatch.push(format!(
+                "commit[{}]:{}:removed[{}]",
+                own.replace(' ', "_"),
+                if r.is_ok() { "accepted" } else { "rejected" },
+                removed.join("+").replace(' ', "_")
+            ));
+        }
         let word = match &r {
             Ok(()) => "ok".to_string(),
             Err(MetaStoreError::MigrationTaskNotFound) => "nf".to_string(),
@@ -1186,6 +1224,18 @@ impl MetaManipulationBroker for FakeBroker {
             };
             let lost = Err(MetaManipulationBrokerError::RequestFailed);
             let id = self.w.key_id(&key_of(&meta));
+            let f = {
+                let mut c = self.w.ctl.lock();
+                c.commit_boundaries.push(n);
+                let k = c.commit_boundaries.len();
+                match c.commit_faults.get(&k).cloned() {
+                    Some(cf) => {
+                        c.faults.insert(n, cf);
+                        cf
+                    }
+                    None => f,
+                }
+            };
             let (src, dst) = meta
                 .slot_range
                 .tag
@@ -1211,7 +1261,9 @@ impl MetaManipulationBroker for FakeBroker {
                 }
                 Fault::Drop => lost,
                 Fault::Delay => {
-                    self.w.ctl.lock().held.insert(n, Held::Commit(meta));
+                    let mut c = self.w.ctl.lock();
+                    c.held_commit_meta.insert(n, (src, dst));
+                    c.held.insert(n, Held::Commit(meta));
                     lost
                 }
                 Fault::NoReply => {
@@ -1352,7 +1404,7 @@ async fn run_steps(w: Arc<World>, steps: Vec<Vec<String>>) -> (Vec<String>, Vec<
     for (si, toks) in steps.iter().enumerate() {
         let u = |k: usize| -> usize { toks[k].parse().expect("num") };
         match toks[0].as_str() {
-            "addproxy" | "addcluster" | "addnodes" | "migrate" | "failover" | "config" | "rmproxy" => {
+            "addproxy" | "addcluster" | "addnodes" | "migrate" | "failover" | "config" | "rmproxy" | "scaledown" | "failoverheld" => {
                 let before = w.pending_ids();
                 let chunks_before: Vec<(String, String)> = chunk_pairs(&w);
                 let res: Result<(), MetaStoreError> = {
@@ -1366,6 +1418,22 @@ async fn run_steps(w: Arc<World>, steps: Vec<Vec<String>>) -> (Vec<String>, Vec<
                         "addnodes" => st.auto_add_nodes(CLUSTER.to_string(), u(1)).map(|_| ()),
                         "migrate" => st.migrate_slots(CLUSTER.to_string()),
                         "failover" => st.replace_failed_proxy(paddr(u(1)), MIGRATION_LIMIT).map(|_| ()),
+                        "scaledown" => st.migrate_slots_to_scale_down(CLUSTER.to_string(), u(1)),
+                        "failoverheld" => {
+                            // fail the source (or destination) proxy of the migration whose k-th commit call is held
+                            let k: usize = toks[1].trim_start_matches('M').parse().expect("k");
+                            let tgt = {
+                                let c = w.ctl.lock();
+                                c.commit_boundaries.get(k - 1).and_then(|b| c.held_commit_meta.get(b)).cloned()
+                            };
+                            match tgt {
+                                Some((src, dst)) => {
+                                    let a = if toks[2] == "src" { src } else { dst };
+                                    st.replace_failed_proxy(paddr(a), MIGRATION_LIMIT).map(|_| ())
+                                }
+                                None => Ok(()),
+                            }
+                        }
                         "config" => {
                             let mut m = HashMap::new();
                             m.insert("migration_scan_count".to_string(), toks[1].clone());
@@ -1395,7 +1463,14 @@ async fn run_steps(w: Arc<World>, steps: Vec<Vec<String>>) -> (Vec<String>, Vec<
                         other => panic!("step {} is not available in a C07F case", other),
                     }
                 };
-                prog.push(format!("adv {}{}", if newk.is_empty() { "-".to_string() } else { newk.join(",") }, fop));
+                // keys that vanished without a commit (a failover re-issues the migration epoch: the old key is gone)
+                let remk: Vec<String> = before.iter().filter(|k| !after.contains(k)).map(|k| k.to_string()).collect();
+                let ids = format!(
+                    "{}{}",
+                    if newk.is_empty() { "-".to_string() } else { newk.join(",") },
+                    if remk.is_empty() { String::new() } else { format!("/{}", remk.join(",")) }
+                );
+                prog.push(format!("adv {}{}", ids, fop));
                 let word = match res {
                     Ok(()) => "ok".to_string(),
                     Err(e) => format!("err:{}", e.to_code()),
@@ -1567,7 +1642,14 @@ async fn run_steps(w: Arc<World>, steps: Vec<Vec<String>>) -> (Vec<String>, Vec<
             }
             "replay" => {
                 let before = { w.ctl.lock().replays.len() };
-                w.do_inject(&Inject::Replay(u(1)), format!("s{}", si)).await;
+                let j = match toks[1].strip_prefix('M') {
+                    Some(k) => {
+                        let k: usize = k.parse().expect("k");
+                        w.ctl.lock().commit_boundaries.get(k - 1).cloned().unwrap_or(usize::MAX)
+                    }
+                    None => u(1),
+                };
+                w.do_inject(&Inject::Replay(j), format!("s{}", si)).await;
                 let ev = {
                     let c = w.ctl.lock();
                     if c.replays.len() > before {
@@ -1613,16 +1695,18 @@ async fn run_steps(w: Arc<World>, steps: Vec<Vec<String>>) -> (Vec<String>, Vec<
         ));
     }
     let ov = { w.ctl.lock().order_violations.clone() };
+    let cmis = { w.ctl.lock().commit_mismatch.clone() };
     let mut failed: Vec<String> = { w.store.lock().get_failed_proxies().iter().map(|a| pidx(a).to_string()).collect() };
     failed.sort();
     let j = |v: &Vec<String>| if v.is_empty() { "-".to_string() } else { v.join(",") };
     obs.push(format!(
-        "Z ops={} rounds={} fm={} failed={} fin={} order={}",
+        "Z ops={} rounds={} fm={} failed={} fin={} cmis={} order={}",
         j(&ops_words),
         j(&round_words),
         j(&fm_words),
         j(&failed),
         fin.join(","),
+        if cmis.is_empty() { "ok".to_string() } else { cmis.join("+") },
         if ov.is_empty() { "ok".to_string() } else { ov.join("+") }
     ));
     (prog, obs)
@@ -1634,11 +1718,17 @@ pub fn run_case(rt: &tokio::runtime::Runtime, line: &str) -> String {
     assert!((hd[0] == "C07" || hd[0] == "C07F") && hd.len() == 4, "header");
     let nproxy: usize = hd[1].parse().expect("nproxy");
     let mut faults = HashMap::new();
+    let mut commit_faults: HashMap<usize, Fault> = HashMap::new();
     if hd[2] != "-" {
         for e in hd[2].split(',') {
             let mut it = e.split(':');
-            let n: usize = it.next().expect("n").parse().expect("n");
-            faults.insert(n, parse_fault(it.next().expect("kind")));
+            let key = it.next().expect("n");
+            let f = parse_fault(it.next().expect("kind"));
+            if let Some(k) = key.strip_prefix('M') {
+                commit_faults.insert(k.parse().expect("k"), f);
+            } else {
+                faults.insert(key.parse().expect("n"), f);
+            }
         }
     }
     let mut injects: HashMap<usize, Vec<Inject>> = HashMap::new();
@@ -1692,6 +1782,10 @@ pub fn run_case(rt: &tokio::runtime::Runtime, line: &str) -> String {
             vt: HashMap::new(),
             down: HashSet::new(),
             choices: vec![],
+            commit_faults,
+            commit_boundaries: vec![],
+            held_commit_meta: HashMap::new(),
+            commit_mismatch: vec![],
         }),
     });
     let (prog, obs) = rt.block_on(async {
